@@ -814,4 +814,318 @@ theorem run_balances_locked {P : Script} {req : Request} {store : Store} {r : Re
       · exact Or.inr (Or.inl (List.mem_flatMap.mpr ⟨s, hs, hl⟩))
       · exact Or.inr (Or.inr (isVarAcct_varAccts hp hv))
 
+/-! ### tracked: the (source, asset) of every posting is one of the balances the run was started on
+
+The set of tracked (account, asset) pairs never changes during a run (every update is of an existing entry), and
+every part of every funding belongs to a tracked pair in the funding's asset. -/
+
+/-- the tracked pairs of `b` are exactly `K` -/
+def DomIs (K : Acct → Asset → Prop) (b : Bal) : Prop := ∀ x A, (b.get x A).isSome ↔ K x A
+
+/-- every part of `f` belongs to a tracked (account, asset of `f`) -/
+def Tracked (K : Acct → Asset → Prop) (f : Fund) : Prop := AcctsIn (fun x => K x f.asset) f.parts
+
+theorem DomIs.upd {K : Acct → Asset → Prop} {b : Bal} (hd : DomIs K b) {a : Acct} {s : Asset} (hK : K a s) (v : Int) :
+    DomIs K (b.upd a s v) := by
+  intro x A
+  rw [upd_get]
+  by_cases hx : x = a ∧ A = s
+  · obtain ⟨rfl, rfl⟩ := hx; simp [hK]
+  · simp only [hx, if_false]; exact hd x A
+
+theorem DomIs.of_get {K : Acct → Asset → Prop} {b : Bal} (hd : DomIs K b) {a : Acct} {s : Asset} {t : Int}
+    (h : b.get a s = some t) : K a s := (hd a s).mp (by rw [h]; rfl)
+
+theorem withdrawAll_dom {K : Acct → Asset → Prop} {b b' : Bal} {a : Acct} {s : Asset} {o : Int} {p : Part}
+    (hd : DomIs K b) (h : withdrawAll b a s o = .ok (p, b')) : DomIs K b' ∧ K p.acct s := by
+  obtain ⟨t, hb, h1 | h1⟩ := withdrawAll_inv h
+  · obtain ⟨_, rfl, rfl⟩ := h1; exact ⟨hd.upd (hd.of_get hb) _, hd.of_get hb⟩
+  · obtain ⟨_, rfl, rfl⟩ := h1; exact ⟨hd, hd.of_get hb⟩
+
+theorem withdrawAlways_dom {K : Acct → Asset → Prop} {b b' : Bal} {a : Acct} {s : Asset} {n : Int} {p : Part}
+    (hd : DomIs K b) (h : withdrawAlways b a s n = .ok (p, b')) : DomIs K b' ∧ K p.acct s := by
+  obtain ⟨t, hb, rfl, rfl⟩ := withdrawAlways_inv h
+  exact ⟨hd.upd (hd.of_get hb) _, hd.of_get hb⟩
+
+theorem repay_dom {K : Acct → Asset → Prop} (s : Asset) : (ps : Parts) → (b : Bal) → DomIs K b →
+    AcctsIn (fun x => K x s) ps → DomIs K (repay b s ps)
+  | [], b, hd, _ => by simpa [repay] using hd
+  | p :: ps, b, hd, hp => by
+    unfold repay
+    split
+    · exact repay_dom s ps b hd hp.tail
+    · exact repay_dom s ps _ (hd.upd hp.head _) hp.tail
+
+theorem credit_dom {K : Acct → Asset → Prop} {b : Bal} (hd : DomIs K b) (d : Acct) (s : Asset) (f : Parts) :
+    DomIs K (credit b d s f) := by
+  unfold credit
+  split
+  · exact hd
+  · split
+    · exact hd
+    · rename_i t ht; exact hd.upd (hd.of_get ht) _
+
+theorem Tracked.pair {K : Acct → Asset → Prop} {k r : Fund} {a : Asset} {rem : Parts}
+    (h : assemble [k, ⟨a, rem⟩] = .ok r) (hk : Tracked K k) (hr : AcctsIn (fun x => K x a) rem) : Tracked K r := by
+  obtain ⟨h1, h2, h3⟩ := assemble_pair h
+  unfold Tracked at hk ⊢
+  rw [h3, h1]
+  rw [h2] at hk
+  exact concat_acctsIn hk hr
+
+theorem Tracked.assemble {K : Acct → Asset → Prop} {fs : List Fund} {r : Fund} (h : assemble fs = .ok r)
+    (hf : ∀ f ∈ fs, Tracked K f) : Tracked K r := by
+  obtain ⟨_, hall, hp⟩ := assemble_ok h
+  unfold Tracked
+  rw [hp]
+  exact catAll_acctsIn (AcctsIn.nil _) (fun f hf' => by
+    have := hf f hf'; unfold Tracked at this; rw [hall f hf'] at this; exact this)
+
+mutual
+theorem evalSource_tracked (K : Acct → Asset → Prop) (env : VEnv) (asset : Asset) : (s : Source) → (b : Bal) →
+    (f : Fund) → (fb : Option Acct) → (b' : Bal) → evalSource env asset s b = .ok (f, fb, b') → DomIs K b →
+    DomIs K b' ∧ Tracked K f
+  | .acct e od, b, f, fb, b', h, hd => by
+    obtain ⟨a, oa, o, unb, p, _, _, hw, rfl, _⟩ := evalSource_acct_inv h
+    have := withdrawAll_dom hd hw
+    exact ⟨this.1, AcctsIn.cons this.2 (AcctsIn.nil _)⟩
+  | .maxed cap s, b, f, fb, b', h, hd => by
+    obtain ⟨f0, fb0, b1, ma, mn, hs, _, _, hfa, _, hc⟩ := evalSource_maxed_inv h
+    have h0 := evalSource_tracked K env asset s b f0 fb0 b1 hs hd
+    have htm := takeMax_acctsIn f0.parts mn h0.2
+    have hd2 := repay_dom f0.asset _ b1 h0.1 htm.2
+    rcases hc with ⟨_, rfl, rfl⟩ | ⟨w, p, _, hw, hasm⟩
+    · exact ⟨hd2, htm.1⟩
+    · have := withdrawAlways_dom hd2 hw
+      exact ⟨this.1, Tracked.pair hasm htm.1 (AcctsIn.cons this.2 (AcctsIn.nil _))⟩
+  | .inorder ss, b, f, fb, b', h, hd => by
+    obtain ⟨fs, hs, hasm⟩ := evalSource_inorder_inv h
+    have h0 := evalSources_tracked K env asset ss b fs fb b' hs hd
+    exact ⟨h0.1, Tracked.assemble hasm h0.2⟩
+theorem evalSources_tracked (K : Acct → Asset → Prop) (env : VEnv) (asset : Asset) : (ss : SourceList) → (b : Bal) →
+    (fs : List Fund) → (fb : Option Acct) → (b' : Bal) → evalSources env asset ss b = .ok (fs, fb, b') → DomIs K b →
+    DomIs K b' ∧ ∀ f ∈ fs, Tracked K f
+  | .nil, b, fs, fb, b', h, hd => by
+    obtain ⟨rfl, rfl, rfl⟩ := evalSources_nil_inv h
+    exact ⟨hd, (by intro f hf; cases hf)⟩
+  | .cons s rest, b, fs, fb, b', h, hd => by
+    obtain ⟨f, fb1, b1, fs', fb2, hs, hr, rfl, _⟩ := evalSources_cons_inv h
+    have h1 := evalSource_tracked K env asset s b f fb1 b1 hs hd
+    have h2 := evalSources_tracked K env asset rest b1 fs' fb2 b' hr h1.1
+    refine ⟨h2.1, ?_⟩
+    intro g hg
+    rcases List.mem_cons.mp hg with rfl | hg
+    · exact h1.2
+    · exact h2.2 g hg
+end
+
+theorem takeFromSource_tracked {K : Acct → Asset → Prop} {fb : Option Acct} {f t : Fund} {ma : Asset} {mn : Int}
+    {b b' : Bal} (h : takeFromSource fb f ma mn b = .ok (t, b')) (hd : DomIs K b) (hf : Tracked K f) :
+    DomIs K b' ∧ Tracked K t := by
+  cases fb with
+  | none =>
+    obtain ⟨taken, rest, _, ht, rfl, rfl⟩ := takeFromSource_none_inv h
+    have := take_acctsIn hf ht
+    exact ⟨repay_dom _ _ _ hd this.2, this.1⟩
+  | some w =>
+    obtain ⟨p, _, hfa, hw, hasm⟩ := takeFromSource_some_inv h
+    have htm := takeMax_acctsIn f.parts mn hf
+    have hd2 := repay_dom f.asset _ b hd htm.2
+    have := withdrawAlways_dom hd2 hw
+    exact ⟨this.1, Tracked.pair hasm htm.1 (AcctsIn.cons this.2 (AcctsIn.nil _))⟩
+
+theorem evalAllotSources_tracked (K : Acct → Asset → Prop) (env : VEnv) (asset ma : Asset) :
+    (items : List (PortionSpec × Source)) → (parts : List Int) → (b b' : Bal) → (ts : List Fund) →
+    evalAllotSources env asset ma items parts b = .ok (ts, b') → DomIs K b → DomIs K b' ∧ ∀ t ∈ ts, Tracked K t
+  | [], parts, b, b', ts, h, hd => by
+    obtain ⟨rfl, rfl⟩ := evalAllotSources_nil_inv h
+    exact ⟨hd, (by intro t ht; cases ht)⟩
+  | it :: rest, parts, b, b', ts, h, hd => by
+    obtain ⟨p, ps, f, fb, b1, t, b2, ts', _, hs, ht, hr, rfl⟩ := evalAllotSources_cons_inv h
+    have h1 := evalSource_tracked K env asset it.2 b f fb b1 hs hd
+    have h2 := takeFromSource_tracked ht h1.1 h1.2
+    have h3 := evalAllotSources_tracked K env asset ma rest ps b2 b' ts' hr h2.1
+    refine ⟨h3.1, ?_⟩
+    intro g hg
+    rcases List.mem_cons.mp hg with rfl | hg
+    · exact h2.2
+    · exact h3.2 g hg
+
+/-- postings are appended, each from a tracked (source, asset) -/
+def AppendedT (K : Acct → Asset → Prop) (ps ps' : List Posting) : Prop :=
+  ∃ new, ps' = ps ++ new ∧ ∀ p ∈ new, K p.src p.asset
+
+theorem AppendedT.refl (K : Acct → Asset → Prop) (ps : List Posting) : AppendedT K ps ps :=
+  ⟨[], by simp, by intro p hp; cases hp⟩
+
+theorem AppendedT.trans {K : Acct → Asset → Prop} {a b c : List Posting} (h1 : AppendedT K a b) (h2 : AppendedT K b c) :
+    AppendedT K a c := by
+  obtain ⟨n1, rfl, hn1⟩ := h1
+  obtain ⟨n2, rfl, hn2⟩ := h2
+  refine ⟨n1 ++ n2, by rw [List.append_assoc], ?_⟩
+  intro p hp
+  rcases List.mem_append.mp hp with hp | hp
+  · exact hn1 p hp
+  · exact hn2 p hp
+
+/-- what a destination does, seen from the tracked pairs -/
+def MovesT (K : Acct → Asset → Prop) (f r : Fund) (st st' : St) : Prop :=
+  DomIs K st'.bal ∧ Tracked K r ∧ r.asset = f.asset ∧ AppendedT K st.postings st'.postings
+
+theorem MovesT.refl {K : Acct → Asset → Prop} {f : Fund} {st : St} (hd : DomIs K st.bal) (hf : Tracked K f) :
+    MovesT K f f st st := ⟨hd, hf, rfl, AppendedT.refl K _⟩
+
+theorem MovesT.trans {K : Acct → Asset → Prop} {f m r : Fund} {st st1 st2 : St} (h1 : MovesT K f m st st1)
+    (h2 : MovesT K m r st1 st2) : MovesT K f r st st2 :=
+  ⟨h2.1, h2.2.1, by rw [h2.2.2.1, h1.2.2.1], h1.2.2.2.trans h2.2.2.2⟩
+
+theorem MovesT.pair {K : Acct → Asset → Prop} {f f1 k c : Fund} {a : Asset} {rem : Parts} {st st1 : St}
+    (h1 : MovesT K f1 k st st1) (hasm : assemble [k, ⟨a, rem⟩] = .ok c) (hfa : f.asset = a)
+    (hrem : AcctsIn (fun x => K x a) rem) : MovesT K f c st st1 :=
+  ⟨h1.1, Tracked.pair hasm h1.2.1 hrem, by rw [(assemble_pair hasm).1, hfa], h1.2.2.2⟩
+
+mutual
+theorem evalDest_tracked (K : Acct → Asset → Prop) (env : VEnv) : (d : Dest) → (f r : Fund) → (st st' : St) →
+    evalDest env d f st = .ok (r, st') → DomIs K st.bal → Tracked K f → MovesT K f r st st'
+  | .acct e, f, r, st, st', h, hd, hf => by
+    obtain ⟨taken, rest, a, ht, _, rfl, rfl⟩ := evalDest_acct_inv h
+    have h2 := take_acctsIn hf ht
+    refine ⟨credit_dom hd _ _ _, h2.2, rfl, taken.map (fun p => ⟨p.acct, a, p.amt, f.asset⟩), emit_postings _ _ _, ?_⟩
+    intro p hp
+    obtain ⟨q, hq, rfl⟩ := List.mem_map.mp hp
+    exact h2.1 q hq
+  | .inorder caps rest, f, r, st, st', h, hd, hf => by
+    obtain ⟨kt, cur, st1, tk, rest2, r0, hc, ht, hk, hasm⟩ := evalDest_inorder_inv h
+    have h1 := evalCaps_tracked K env caps 0 kt f cur st st1 hc hd hf
+    have hcur : AcctsIn (fun x => K x f.asset) cur.parts := by
+      have := h1.2.1; unfold Tracked at this; rw [h1.2.2.1] at this; exact this
+    have h3 := take_acctsIn hcur.reverse ht
+    have hk' := evalKD_tracked K env rest ⟨f.asset, rest2.reverse⟩ r0 st1 st' hk h1.1 h3.2.reverse
+    exact h1.trans (hk'.pair (f := cur) hasm h1.2.2.1 h3.1.reverse)
+  | .allot items, f, r, st, st', h, hd, hf => by
+    obtain ⟨ps, _, ha⟩ := evalDest_allot_inv h
+    exact evalAllot_tracked K env items _ f r st st' ha hd hf
+theorem evalKD_tracked (K : Acct → Asset → Prop) (env : VEnv) : (kd : KeptOrDest) → (f r : Fund) → (st st' : St) →
+    evalKD env kd f st = .ok (r, st') → DomIs K st.bal → Tracked K f → MovesT K f r st st'
+  | .kept, f, r, st, st', h, hd, hf => by
+    rw [evalKD_kept] at h
+    simp only [Except.ok.injEq, Prod.mk.injEq] at h
+    obtain ⟨rfl, rfl⟩ := h
+    exact MovesT.refl hd hf
+  | .to d, f, r, st, st', h, hd, hf => by
+    rw [evalKD_to] at h
+    exact evalDest_tracked K env d f r st st' h hd hf
+theorem evalCaps_tracked (K : Acct → Asset → Prop) (env : VEnv) : (cs : CapList) → (kt kt' : Int) →
+    (cur cur' : Fund) → (st st' : St) → evalCaps env cs kt cur st = .ok (kt', cur', st') → DomIs K st.bal →
+    Tracked K cur → MovesT K cur cur' st st'
+  | .nil, kt, kt', cur, cur', st, st', h, hd, hf => by
+    obtain ⟨_, rfl, rfl⟩ := evalCaps_nil_inv h
+    exact MovesT.refl hd hf
+  | .cons cap kd rest, kt, kt', cur, cur', st, st', h, hd, hf => by
+    obtain ⟨ma, mn, k, st1, c, _, _, _, hk, _, hasm, hr⟩ := evalCaps_cons_inv h
+    have hs := takeMax_acctsIn cur.parts mn hf
+    have hk' := evalKD_tracked K env kd ⟨cur.asset, (takeMax cur.parts mn).1⟩ k st st1 hk hd hs.1
+    have h1 : MovesT K cur c st st1 := hk'.pair hasm rfl hs.2
+    exact h1.trans (evalCaps_tracked K env rest _ kt' c cur' st1 st' hr h1.1 h1.2.1)
+theorem evalAllot_tracked (K : Acct → Asset → Prop) (env : VEnv) : (items : AllotList) → (parts : List Int) →
+    (cur r : Fund) → (st st' : St) → evalAllot env items parts cur st = .ok (r, st') → DomIs K st.bal →
+    Tracked K cur → MovesT K cur r st st'
+  | .nil, parts, cur, r, st, st', h, hd, hf => by
+    obtain ⟨rfl, rfl⟩ := evalAllot_nil_inv h
+    exact MovesT.refl hd hf
+  | .cons ps0 kd rest, parts, cur, r, st, st', h, hd, hf => by
+    obtain ⟨p, ps, taken, rem, k, st1, c, _, ht, hk, hasm, hr⟩ := evalAllot_cons_inv h
+    have h2 := take_acctsIn hf ht
+    have hk' := evalKD_tracked K env kd ⟨cur.asset, taken⟩ k st st1 hk hd h2.1
+    have h1 : MovesT K cur c st st1 := hk'.pair hasm rfl h2.2
+    exact h1.trans (evalAllot_tracked K env rest ps c r st1 st' hr h1.1 h1.2.1)
+end
+
+theorem finishSend_tracked {K : Acct → Asset → Prop} {env : VEnv} {d : Dest} {f : Fund} {st st' : St}
+    (h : finishSend env d f st = .ok st') (hd : DomIs K st.bal) (hf : Tracked K f) :
+    DomIs K st'.bal ∧ AppendedT K st.postings st'.postings := by
+  obtain ⟨rest, st1, he, rfl⟩ := finishSend_inv h
+  have := evalDest_tracked K env d f rest st st1 he hd hf
+  exact ⟨repay_dom _ _ _ this.1 this.2.1, this.2.2.2⟩
+
+theorem evalSend_tracked {K : Acct → Asset → Prop} {env : VEnv} {amt : SendAmt} {src : VSource} {d : Dest}
+    {st st' : St} (h : evalSend env amt src d st = .ok st') (hd : DomIs K st.bal) :
+    DomIs K st'.bal ∧ AppendedT K st.postings st'.postings := by
+  cases amt with
+  | mon e =>
+    cases src with
+    | src s =>
+      obtain ⟨a, f, fb, b1, ma, mn, taken, b2, _, hs, _, ht, hfin⟩ := evalSend_mon_src_inv h
+      have h1 := evalSource_tracked K env a s st.bal f fb b1 hs hd
+      have h2 := takeFromSource_tracked ht h1.1 h1.2
+      exact finishSend_tracked (st := { st with bal := b2 }) hfin h2.1 h2.2
+    | allot items =>
+      obtain ⟨ma, mn, a, ps, ts, b1, f, _, _, _, hs, hasm, hfin⟩ := evalSend_mon_allot_inv h
+      have h1 := evalAllotSources_tracked K env a ma items _ st.bal b1 ts hs hd
+      exact finishSend_tracked (st := { st with bal := b1 }) hfin h1.1 (Tracked.assemble hasm h1.2)
+  | all ae =>
+    cases src with
+    | src s =>
+      obtain ⟨a, f, fb, b1, _, hs, hfin⟩ := evalSend_all_src_inv h
+      have h1 := evalSource_tracked K env a s st.bal f fb b1 hs hd
+      exact finishSend_tracked (st := { st with bal := b1 }) hfin h1.1 h1.2
+    | allot items => rw [evalSend_all_allot] at h; cases h
+
+theorem evalStmt_tracked {K : Acct → Asset → Prop} {env : VEnv} {s : Stmt} {F F' : Full}
+    (h : evalStmt env s F = .ok F') (hd : DomIs K F.st.bal) :
+    DomIs K F'.st.bal ∧ AppendedT K F.st.postings F'.st.postings := by
+  by_cases h1 : ∃ amt src d, s = .send amt src d
+  · obtain ⟨amt, src, d, rfl⟩ := h1
+    obtain ⟨st, hs, rfl⟩ := evalStmt_send_inv h
+    exact evalSend_tracked hs hd
+  · by_cases h2 : ∃ e acc, s = .saveMon e acc
+    · obtain ⟨e, acc, rfl⟩ := h2
+      obtain ⟨ma, mn, a, t, _, _, _, ht, rfl⟩ := evalStmt_saveMon_inv h
+      exact ⟨hd.upd (hd.of_get ht) _, AppendedT.refl K _⟩
+    · by_cases h3 : ∃ ae acc, s = .saveAll ae acc
+      · obtain ⟨ae, acc, rfl⟩ := h3
+        obtain ⟨s, a, t, _, _, ht, rfl⟩ := evalStmt_saveAll_inv h
+        refine ⟨?_, AppendedT.refl K _⟩
+        dsimp only
+        split
+        · exact hd.upd (hd.of_get ht) _
+        · exact hd
+      · have := evalStmt_other_inv h (fun amt src d hs => h1 ⟨amt, src, d, hs⟩)
+          (fun e acc hs => h2 ⟨e, acc, hs⟩) (fun ae acc hs => h3 ⟨ae, acc, hs⟩)
+        rw [this]; exact ⟨hd, AppendedT.refl K _⟩
+
+theorem evalStmts_tracked {K : Acct → Asset → Prop} {env : VEnv} : (ss : List Stmt) → (F F' : Full) →
+    evalStmts env ss F = .ok F' → DomIs K F.st.bal → DomIs K F'.st.bal ∧ AppendedT K F.st.postings F'.st.postings
+  | [], F, F', h, hd => by
+    simp only [evalStmts, Except.ok.injEq] at h
+    rw [← h]; exact ⟨hd, AppendedT.refl K _⟩
+  | s :: ss, F, F', h, hd => by
+    obtain ⟨F1, h1, h2⟩ := evalStmts_cons_inv h
+    have a1 := evalStmt_tracked h1 hd
+    have a2 := evalStmts_tracked ss F1 F' h2 a1.1
+    exact ⟨a2.1, a1.2.trans a2.2⟩
+
+theorem initBal_dom (store : Store) (nd : List (Acct × Asset)) :
+    DomIs (fun x A => nd.contains (x, A) = true) (initBal store nd) := by
+  intro x A
+  simp only [initBal]
+  by_cases hc : nd.contains (x, A) = true
+  · simp
+  · simp
+
+/-- **the (source, asset) of every posting of an accepted run is one of the balances the run read** -/
+theorem run_postings_tracked {P : Script} {req : Request} {store : Store} {r : Result} (h : run P req store = .ok r) :
+    ∀ p ∈ r.postings, (p.src, p.asset) ∈ r.finalBal.map (·.1) := by
+  obtain ⟨env, F, _, he, hpost, _, _, hfb⟩ := run_inv_locks h
+  have := evalStmts_tracked P.stmts _ F he (initBal_dom store (needed env P.stmts))
+  obtain ⟨_, new, hnew, hall⟩ := this
+  simp only [List.nil_append] at hnew
+  intro p hp
+  rw [hpost, hnew] at hp
+  have hK := hall p hp
+  rw [hfb]
+  unfold run.dedupPairs
+  rw [mem_dedupFold]
+  exact Or.inr (List.contains_iff_mem.mp hK)
+
 end Num
